@@ -194,6 +194,15 @@ func c01exec(c *h.Ctx, cs *h.Case) {
 				panic(err)
 			}
 			key := "m" + strconv.Itoa(m)
+			// the creation path of TransmitMsg (tree known, no instance listed for the token yet) calls
+			// checkPendingMessages when a message of the tree is parked: that flush goroutine is spawned
+			// from inside the arrival thread and reaches its first hook point on its own time. Every other
+			// thread is parked at a hook point now, so what the arrival will find is what is there now.
+			e.mu.Lock()
+			nf := e.flushN[t]
+			e.mu.Unlock()
+			spawns := m < 1000 && strings.HasPrefix(e.ov.VerifTreeState(e.trees[t].ID), "present") &&
+				e.ov.VerifPendingCount(e.trees[t].ID) > 0 && e.ov.VerifInstanceState(to) == "none"
 			go func() {
 				e.ov.Process(env)
 				e.ctl.Finished(key)
@@ -202,6 +211,19 @@ func c01exec(c *h.Ctx, cs *h.Case) {
 			if err != nil {
 				bad("thread-stuck", err.Error())
 				return false
+			}
+			if spawns && loc == "finished" {
+				// as after the re-check: if no flush goroutine shows up the case goes on (the later
+				// observations will differ from the model's)
+				old := e.ctl.Timeout
+				e.ctl.Timeout = 1500 * time.Millisecond
+				err := e.expectFlush(t, nf)
+				e.ctl.Timeout = old
+				if err != nil {
+					c.Count("no-flush-after-create")
+				} else {
+					c.Count("flush-spawned-by-creation")
+				}
 			}
 			cs.Impl = append(cs.Impl, fmt.Sprintf("pc=%s %s", pcOf[loc], e.obs(t)))
 		case "thread":
